@@ -1510,8 +1510,25 @@ impl TypeCheckVisitor<'_> {
                     arg_tys.push((arg_ty, arg.expr.position.clone(), arg.comma.clone()));
                 }
 
+                let receiver_ty_var_env = ty_var_env.clone();
                 for (param_ty, (arg_ty, _, _)) in param_decl_tys.iter().zip(arg_tys.iter()) {
                     unify_and_solve_ty(param_ty, arg_ty, &mut ty_var_env);
+                }
+
+                // An argument can refine a type parameter that the
+                // receiver has solved (`[].append(1)`), but it can't
+                // contradict it (`["a"].append(1)`).
+                for (name, receiver_solved_ty) in receiver_ty_var_env {
+                    let Some(receiver_solved_ty) = receiver_solved_ty else {
+                        continue;
+                    };
+                    let solved_ty = match ty_var_env.get(&name) {
+                        Some(Some(ty)) => {
+                            unify(&receiver_solved_ty, ty).unwrap_or(receiver_solved_ty)
+                        }
+                        _ => receiver_solved_ty,
+                    };
+                    ty_var_env.insert(name, Some(solved_ty));
                 }
 
                 let params = param_decl_tys
